@@ -307,7 +307,8 @@ class _StarFinderCatalog:
     def cutout_data(self):
         cutout = []
         for slc in self.slices:
-            cdata = self.data[slc]
+            # copy: the cutout is a view of the input image
+            cdata = self.data[slc].copy()
             cdata[cdata < 0] = 0.0  # exclude negative pixels
             cutout.append(cdata)
         return cutout
